@@ -1,11 +1,14 @@
 // Correspondence harness for C08: the real GPFPrediction / GPFCorrection wrapping the real
 // KFPrediction / UKFPrediction and KFCorrection / UKFCorrection / SUKFCorrection.
 //
-//   gpfh n k m seed predKind corrKind alpha beta kappa sub exo <trans> <set> nsteps <step>*
+//   gpfh n k m seed predKind corrKind alpha beta kappa sub exo circ <trans> <set> nsteps <step>*
 //     predKind 0 KF, 1 UKF(additive model), 2 UKF(generic StateModel overload)
 //     corrKind 0 KF, 1 UKF(additive), 2 SUKF(sub-size `sub`), 3 UKF(generic MeasurementModel overload), 4 same with online weights
 //     seed 1 selects the GPFCorrection constructor overload without a seed
 //     exo     = 1: an ExogenousModel u(x) = G x + g is attached to the wrapped prediction's state model
+//     circ    = number of circular (angle, non-quaternion) components of the state: the particle sets are built as
+//               ParticleSet(k, n - circ, circ) and every model describes its state as (n - circ) linear + circ circular
+//               components (the last circ rows are angles; sigma points and unscented means treat them as such)
 //     <trans> = 0                   harness-defined density  c / (1 + |cur − A prev − b|²), A b c per step
 //             | 1 T qtilde          the shipped WhiteNoiseAcceleration (n = 2, 4, 6)
 //     <set>   = states(n×k) means(n×k) covs(n×nk) logweights(k)
@@ -51,6 +54,7 @@ struct Script {
     // the models of the current step (they may change from step to step at fixed sizes)
     MatrixXd F, Q, H, R, A, G; VectorXd b, g; double c = 1.0;
     VectorXd y; bool lik_valid = true; int lik_kind = 0; VectorXd lik_c, lik_a;
+    long lin = 0, circ = 0;   // layout of the state: lin linear components followed by circ angles
     int meas_fail = 0;   // 1 measure, 2 predictedMeasure, 3 innovation, 4 noise covariance reports failure
     // what the likelihood model returned in its last call (recorded by the harness-defined models)
     int rec_calls = 0; bool rec_valid = false; VectorXd rec_l;
@@ -63,7 +67,7 @@ struct HState : public LinearStateModel {
     MatrixXd getStateTransitionMatrix() override { return s_->F; }
     MatrixXd getNoiseCovarianceMatrix() override { return s_->Q; }
     bool setProperty(const std::string&) override { return false; }
-    VectorDescription getStateDescription() override { return VectorDescription(s_->F.rows()); }
+    VectorDescription getStateDescription() override { return VectorDescription(s_->lin, s_->circ); }
     std::shared_ptr<Script> s_;
 };
 
@@ -72,7 +76,7 @@ struct HExo : public ExogenousModel {
     explicit HExo(std::shared_ptr<Script> s) : s_(s) {}
     void propagate(const Ref<const MatrixXd>& cur, Ref<MatrixXd> prop) override { prop = (s_->G * cur).colwise() + s_->g; }
     bool setProperty(const std::string&) override { return false; }
-    VectorDescription getStateDescription() const override { return VectorDescription(s_->g.size()); }
+    VectorDescription getStateDescription() const override { return VectorDescription(s_->lin, s_->circ); }
     std::shared_ptr<Script> s_;
 };
 
@@ -88,8 +92,8 @@ struct HGenState : public StateModel {
     }
     MatrixXd getNoiseCovarianceMatrix() override { return s_->Q; }
     bool setProperty(const std::string&) override { return false; }
-    VectorDescription getInputDescription() override { return VectorDescription(s_->F.rows(), 0, s_->F.rows()); }
-    VectorDescription getStateDescription() override { return VectorDescription(s_->F.rows()); }
+    VectorDescription getInputDescription() override { return VectorDescription(s_->lin, s_->circ, s_->F.rows()); }
+    VectorDescription getStateDescription() override { return VectorDescription(s_->lin, s_->circ); }
     std::shared_ptr<Script> s_;
 };
 
@@ -111,7 +115,7 @@ struct HGenMeas : public MeasurementModel {
         MatrixXd inn = -(any::any_cast<MatrixXd>(p).colwise() - any::any_cast<MatrixXd>(y).col(0));
         return std::make_pair(true, Data(inn));
     }
-    VectorDescription getInputDescription() const override { return VectorDescription(s_->H.cols(), 0, s_->R.rows()); }
+    VectorDescription getInputDescription() const override { return VectorDescription(s_->lin, s_->circ, s_->R.rows()); }
     VectorDescription getMeasurementDescription() const override { return VectorDescription(s_->H.rows()); }
     std::shared_ptr<Script> s_;
 };
@@ -131,7 +135,7 @@ struct HMeas : public LinearMeasurementModel {
         if (s_->meas_fail == 3) return std::make_pair(false, Data());
         return LinearMeasurementModel::innovation(p, y);
     }
-    VectorDescription getInputDescription() const override { return VectorDescription(s_->H.cols(), 0, s_->R.rows()); }
+    VectorDescription getInputDescription() const override { return VectorDescription(s_->lin, s_->circ, s_->R.rows()); }
     VectorDescription getMeasurementDescription() const override { return VectorDescription(s_->H.rows()); }
     std::shared_ptr<Script> s_;
 };
@@ -164,8 +168,8 @@ struct HTrans : public StateModel {
     void propagate(const Ref<const MatrixXd>& cur, Ref<MatrixXd> prop) override { prop = s_->A * cur; }
     void motion(const Ref<const MatrixXd>& cur, Ref<MatrixXd> mot) override { mot = s_->A * cur; }
     bool setProperty(const std::string&) override { return false; }
-    VectorDescription getInputDescription() override { return VectorDescription(s_->A.rows()); }
-    VectorDescription getStateDescription() override { return VectorDescription(s_->A.rows()); }
+    VectorDescription getInputDescription() override { return VectorDescription(s_->lin, s_->circ); }
+    VectorDescription getStateDescription() override { return VectorDescription(s_->lin, s_->circ); }
     VectorXd getTransitionProbability(const Ref<const MatrixXd>& prev, const Ref<const MatrixXd>& cur) override {
         VectorXd t(cur.cols());
         for (long i = 0; i < cur.cols(); ++i) t(i) = s_->c / (1.0 + (cur.col(i) - s_->A * prev.col(i) - s_->b).squaredNorm());
@@ -228,15 +232,19 @@ static std::string gpfh(Toks& t) {
     double alpha = t.dbl(), beta = t.dbl(), kappa = t.dbl();
     long sub = t.nat();
     bool exo = t.flag();
+    long circ = t.nat();
+    if (circ > n) throw vh::BadArgs("circ");
+    long lin = n - circ;
     int transKind = (int)t.nat();
     double T = 0, qt = 0;
     if (transKind == 1) { T = t.dbl(); qt = t.dbl(); }
     else if (transKind != 0) throw vh::BadArgs("transKind");
-    ParticleSet cur(k, n);
+    ParticleSet cur = circ ? ParticleSet(k, lin, circ) : ParticleSet(k, n);
     readSet(t, cur, n, k);
     long nsteps = t.nat();
 
     auto script = std::make_shared<Script>();
+    script->lin = lin; script->circ = circ;
     script->y = VectorXd::Zero(m);
     script->A = MatrixXd::Identity(n, n); script->b = VectorXd::Zero(n);
     script->G = MatrixXd::Zero(n, n); script->g = VectorXd::Zero(n);
@@ -244,6 +252,7 @@ static std::string gpfh(Toks& t) {
     // are built on first use
     // a differently configured set of models, only ever used as the *target* of a move assignment
     auto decoy = std::make_shared<Script>();
+    decoy->lin = lin; decoy->circ = circ;
     decoy->F = MatrixXd::Identity(n, n) * 3.0; decoy->Q = MatrixXd::Identity(n, n) * 7.0;
     decoy->H = MatrixXd::Ones(m, n); decoy->R = MatrixXd::Identity(m, m) * 5.0; decoy->y = VectorXd::Constant(m, 9.0);
     decoy->A = MatrixXd::Zero(n, n); decoy->b = VectorXd::Constant(n, 2.0); decoy->c = 11.0;
@@ -272,9 +281,9 @@ static std::string gpfh(Toks& t) {
     for (long s = 0; s < nsteps; ++s) {
         std::string kind = t.tok();
         bool skip = t.flag();
-        ParticleSet out(k, n);
+        ParticleSet out = circ ? ParticleSet(k, lin, circ) : ParticleSet(k, n);
         poison(out);
-        GaussianMixture dout(k, n);
+        GaussianMixture dout = circ ? GaussianMixture(k, lin, circ) : GaussianMixture(k, n);
         dout.mean().setConstant(12345.0); dout.covariance().setConstant(-54321.0); dout.weight().setConstant(-999.0);
         ParticleSet in0 = cur;
         if (kind == "P") {
@@ -384,7 +393,7 @@ static std::string gpfh(Toks& t) {
     if (t.empty()) break;
     if (t.tok() != "R") throw vh::BadArgs("segment");
     k = t.nat();
-    cur = ParticleSet(k, n);
+    cur = circ ? ParticleSet(k, lin, circ) : ParticleSet(k, n);
     readSet(t, cur, n, k);
     nsteps = t.nat();
     decoy->lik_c = VectorXd::Constant(k, 7.0);
